@@ -9,6 +9,7 @@ file list may be filled in, every unpack root `R` and every initial file system 
 import Sqfs.Proofs.UnpackComplete
 import Sqfs.Proofs.UnpackWeak
 import Sqfs.Proofs.UnpackDup
+import Sqfs.Proofs.UnpackRepaired
 namespace Sqfs.C06
 open Sqfs.Path Sqfs.Unpack
 
@@ -394,6 +395,103 @@ theorem fresh_implies_no_link_below (fs : Fs) (R : PathC) (h : Fresh fs R) : NoL
     invents no entry (`OrdOK`) and loses none (`OrdAll`) -/
 theorem ordByLoc_is_a_fill_order : OrdOK ordByLoc ∧ OrdAll ordByLoc := ordByLoc_ok
 
+/-! ### the repaired `create_node` (fixes/C06-mkdir-eexist-lstat.patch): no hypothesis on what R holds
+
+The current code accepts `EEXIST` from `mkdir` without looking at what exists (`tolerated`); every confinement theorem
+above therefore needs `NoLinkBelow` and `Witness.C06.prepopulated_symlink_escapes` shows that it cannot be dropped: that
+is a defect of the current code against the property as stated ("for every image … only underneath R", no hypothesis on
+R).  The repaired code accepts `EEXIST` only if `lstat` says "a directory" (`toleratedR`, `runR`, `unpackMainR` in
+`Sqfs/Model/UnpackRepaired.lean`).  For it: -/
+
+/-- **Confinement for every R.**  For every tree, option set and fill order, from **any** file system `fs₀` — R may
+    hold anything, symbolic links to anywhere included — with any calls failing for reasons of the environment (`flt`; `lflt`:
+    the `lstat` behind a `mkdir`/`EEXIST` fails): the walks of the repaired unpacker, run with working directory `R`, leave
+    everything that is not strictly below `R` exactly as it was.  No hypothesis on `fs₀` at all. -/
+theorem confinement_any_R (ord : List FileEnt → List FileEnt) (hord : OrdOK ord) (fl : Flags) (t : TNode) (R : PathC)
+    (fs₀ : Fs) (flt : Faults) (lflt : Nat → Bool) (i : Nat) :
+    outside R (runR flt lflt R i fs₀ (unpackTree ord fl t).syscalls).fs = outside R fs₀ := by
+  cases hs : treeSort t with
+  | error e => rw [unpackTree_dup ord fl t e hs]; rfl
+  | ok t' =>
+    obtain ⟨d, _, _, _, hinv⟩ := InvR.run flt lflt _ i fs₀ [] (InvR.start R fs₀) (unpackTree_wellPlaced ord hord fl t t' hs)
+    funext p
+    unfold outside
+    cases h : underB R p with
+    | true => rfl
+    | false => simpa using hinv.out p h
+
+/-- **What remains, precisely: only what the image names is touched.**  If after the repaired run the object at an
+    absolute path `p` differs in any respect from what was there before, then `p = R ++ c` where `c` is the non-empty list
+    of clean components of the path of some call of the plan — a node the image itself names.  In particular a symbolic
+    link (or anything else) that R held beforehand at a path the image does not name is still there, unchanged, and
+    nothing was written through it; one at a path the image *does* name makes the creating call there fail (`EEXIST`, or
+    for a directory node `lstat` ≠ directory) and ends the run. -/
+theorem repaired_touches_only_named_paths (ord : List FileEnt → List FileEnt) (hord : OrdOK ord) (fl : Flags) (t : TNode)
+    (R : PathC) (fs₀ : Fs) (flt : Faults) (lflt : Nat → Bool) (i : Nat) (p : PathC)
+    (h : (runR flt lflt R i fs₀ (unpackTree ord fl t).syscalls).fs p ≠ fs₀ p) :
+    ∃ sc ∈ (unpackTree ord fl t).syscalls, ∃ c : List Bytes, c ≠ [] ∧ sc.path = joinSlash c ∧ p = R ++ c ∧
+      ∀ x ∈ c, x ≠ [] ∧ isFilenameSane x = true := by
+  cases hs : treeSort t with
+  | error e => rw [unpackTree_dup ord fl t e hs] at h; exact absurd rfl h
+  | ok t' =>
+    obtain ⟨d, hsub, _, _, hinv⟩ := InvR.run flt lflt _ i fs₀ [] (InvR.start R fs₀) (unpackTree_wellPlaced ord hord fl t t' hs)
+    obtain ⟨sc, hm, c, k, hcf, hne, hp⟩ := hinv.chg p h
+    refine ⟨sc, ?_, c, hne, hcf.2.1, hp, fun x hx => ?_⟩
+    · rcases hsub sc hm with h1 | h1
+      · cases h1
+      · exact h1
+    · obtain ⟨h1, h2, h3, h4⟩ := hcf.1 x hx
+      exact ⟨h1, (Sqfs.C18.sane_iff x).2 ⟨h3, h4, h2⟩⟩
+
+/-- **Success is a statement about the file system, not about the trace** (repaired code).  If no call of the repaired run
+    failed, then for every creating call of the plan (`mkdir`, `symlink`, `mknod`, `open(O_CREAT|O_EXCL)`; by
+    `skipped_reported_rest_unpacked` every reachable node has one) the object at its place `R ++ c` exists in the final file
+    system and is of the sort of that node's inode type: where the image has a directory there **is a directory** — a
+    `mkdir` answering `EEXIST` on a file, a device or a symbolic link no longer counts as "unpacked", as it does for the
+    current code (`success_means_everything_unpacked` speaks about the trace only, `Fine` includes the tolerated `EEXIST`). -/
+theorem repaired_success_objects_in_place (ord : List FileEnt → List FileEnt) (hord : OrdOK ord) (fl : Flags) (t : TNode)
+    (R : PathC) (fs₀ : Fs) (flt : Faults) (lflt : Nat → Bool) (i : Nat)
+    (hok : (runR flt lflt R i fs₀ (unpackTree ord fl t).syscalls).failed = false) :
+    ∀ sc ∈ (unpackTree ord fl t).syscalls, sc.isCreate = true →
+      ∃ (c : List Bytes) (k : Kind), sc.path = joinSlash c ∧ Compat sc k ∧
+        (c ≠ [] → ∃ n, (runR flt lflt R i fs₀ (unpackTree ord fl t).syscalls).fs (R ++ c) = some n ∧ kindMatch n.kind k = true) := by
+  intro sc hsc hcr
+  cases hs : treeSort t with
+  | error e => rw [unpackTree_dup ord fl t e hs] at hsc; simp at hsc
+  | ok t' =>
+    obtain ⟨d, _, _, hall, hinv⟩ := InvR.run flt lflt _ i fs₀ [] (InvR.start R fs₀) (unpackTree_wellPlaced ord hord fl t t' hs)
+    obtain ⟨c, k, _, hg, hpath, hcompat⟩ := unpackTree_ops ord hord fl t t' hs sc hsc
+    exact ⟨c, k, hpath, hcompat, fun hne => hinv.est sc (hall hok sc hsc) hcr c k ⟨hg, hpath, hcompat⟩ hne⟩
+
+/-- **`main` of the repaired unpacker, end to end**: for every tree, option set, fill order, `--unpack-root` argument
+    (or none), start directory, file system and failing calls, what `main` does after `mkdir_p`/`chdir` changes nothing
+    that is not strictly below the directory the process then stands in — whatever that directory holds.  (Establishing
+    R is unchanged code: `OnlyNewDirs`, `root_not_established_nothing_unpacked` speak about `mkdirP`/`chdir`, which
+    `unpackMainR` shares with `unpackMain`.) -/
+theorem main_confinement_any_R (ord : List FileEnt → List FileEnt) (hord : OrdOK ord) (fl : Flags) (t : TNode)
+    (root : Option Bytes) (flt : Faults) (lflt : Nat → Bool) (cwd₀ : PathC) (fs₀ : Fs) :
+    outside (unpackMainR ord fl t root flt lflt cwd₀ fs₀).cwd (unpackMainR ord fl t root flt lflt cwd₀ fs₀).fs =
+      outside (unpackMainR ord fl t root flt lflt cwd₀ fs₀).cwd (unpackMainR ord fl t root flt lflt cwd₀ fs₀).fsEst := by
+  unfold unpackMainR
+  cases hs : treeSort t with
+  | error e => rfl
+  | ok t' =>
+    simp only
+    cases root with
+    | none =>
+      simp only
+      rw [← unpackTree_eq ord fl hs]
+      exact confinement_any_R ord hord fl t _ _ flt lflt _
+    | some Rb =>
+      simp only
+      split
+      · rfl
+      · split
+        · rfl
+        · simp only
+          rw [← unpackTree_eq ord fl hs]
+          exact confinement_any_R ord hord fl t _ _ flt lflt _
+
 /-! ### non-vacuity and sanity of the model -/
 
 section examples
@@ -502,6 +600,13 @@ example : NoLinkBelow fs4 [Rn] ∧ ¬ Fresh fs4 [Rn] := by
 example : (unpackMain id {} (hostile false) (some Rn) noFaults [] fs4).exit = 1 ∧
     (unpackMain id {} (hostile false) (some Rn) noFaults [] fs4).trace = [(.symlink upX A, some .EEXIST)] ∧
     (unpackMain id {} (hostile false) (some Rn) noFaults [] fs4).fs [X] = some ⟨.file [1], {}⟩ := by decide
+/-! the repaired unpacker into the populated `fs4`: a directory node `a` meets the old *file* `/R/a` — `mkdir` answers
+    `EEXIST`, `lstat` says "not a directory", exit status 1; a directory node `b` meets the old directory `/R/b` and is
+    unpacked into it (exit status 0).  (The planted symbolic link: `Witness.C06.repaired_planted_symlink_confined`.) -/
+example : (unpackMainR id {} (.mk [] .dir [] {} [.mk A .dir [] {} [.mk X .reg [7] {} []]]) none noFaults (fun _ => false) [Rn] fs4).exit = 1 ∧
+    (unpackMainR id {} (.mk [] .dir [] {} [.mk B .dir [] {} [.mk X .reg [7] {} []]]) none noFaults (fun _ => false) [Rn] fs4).exit = 0 ∧
+    (unpackMainR id {} (.mk [] .dir [] {} [.mk B .dir [] {} [.mk X .reg [7] {} []]]) none noFaults (fun _ => false) [Rn] fs4).fs [Rn, B, X]
+      = some ⟨.file [7], { perm := 0o644 }⟩ := by decide
 /-! the remaining theorems with hypotheses, applied to the hostile tree with every hypothesis discharged -/
 example := skipped_reported_rest_unpacked { chmod := true } (hostile false) (by decide)
 example : (restoreFstree { chmod := true } (hostile false)).skips = skippedRoot (hostile false) :=
